@@ -257,7 +257,10 @@ WaitRet(m, e) ==
                                                          !.miss = <<Miss(f, 1), Miss(f, 2), Miss(f, 3)>>]],
                       !.tk = [k \in Obj |-> [@[k] EXCEPT !.ran = FALSE]],
                       !.due = newdue, !.roundSeq = m.seq, !.blocked = FALSE,
-                      !.idle = IF ok THEN @ ELSE 0]
+                      !.idle = IF ok THEN @ ELSE 0,
+                      (* an interrupted wait is not a timer pass (with the kernel timer armed the loop
+                         simply waits again and is woken by it) *)
+                      !.prevW = IF ok THEN @ ELSE <<FALSE, <<0, 0>>, 0>>]
       anyW == \E f \in 1..N : \E b \in Band : Wanted(m, f, b) /\ Cond(b, e.tr[f])
   IN Chk(m1, ok /\ anyW, \A f \in Obj : \A b \in Band : m1.fd[f].miss[b] < 3, "C02:not-reported")
 
